@@ -104,9 +104,26 @@ func genC16(t *rapid.T) *c16Case {
 		lossless := e.Bitstream[0] == 0x2f
 		var chunks [][]byte
 		flags := byte(0)
-		alphMode := rapid.SampledFrom([]string{"as-is", "as-is", "none", "empty"}).Draw(t, "alphMode")
+		alphMode := rapid.SampledFrom([]string{"as-is", "as-is", "none", "empty", "opaque"}).Draw(t, "alphMode")
 		hasAlph := e.Alph != nil && alphMode == "as-is"
 		emptyAlph := !lossless && alphMode == "empty"
+		var opaqueAlph []byte
+		if !lossless && alphMode == "opaque" {
+			// a real, decodable ALPH chunk whose plane is 255 everywhere (raw, filter 0..3)
+			f := rapid.IntRange(0, 3).Draw(t, "opaqueAlphFilter")
+			opaqueAlph = make([]byte, 1+e.W*e.H)
+			opaqueAlph[0] = byte(f << 2)
+			for i := 1; i < len(opaqueAlph); i++ {
+				opaqueAlph[i] = 255
+			}
+			if f != 0 {
+				// residuals of a constant 255 plane under any predictive filter: first sample 255, rest 0
+				for i := 2; i < len(opaqueAlph); i++ {
+					opaqueAlph[i] = 0
+				}
+			}
+			flags |= 0x10
+		}
 		if hasAlph || emptyAlph {
 			flags |= 0x10
 		}
@@ -140,6 +157,8 @@ func genC16(t *rapid.T) *c16Case {
 			chunks = append(chunks, riffChunk("ALPH", e.Alph, true))
 		} else if emptyAlph {
 			chunks = append(chunks, riffChunk("ALPH", nil, true))
+		} else if opaqueAlph != nil {
+			chunks = append(chunks, riffChunk("ALPH", opaqueAlph, true))
 		}
 		id := "VP8 "
 		if lossless {
